@@ -36,6 +36,7 @@ const L_EXACT: &str = "C08.bounded.trades_query_exactly_the_accepted_fills";
 const L_DIRECT: &str = "C08.bounded.trades_query_account_state";
 /// the fills were not made in time_exchange order (fills are stamped from the REQUEST's clock: a second client / a lagging clock)
 const L_OOO: &str = "C08.bounded.trades_query_out_of_order_times";
+const L_CLIENT: &str = "C08.bounded.trades_query_through_the_client";
 const L_SNAP_BAL: &str = "C08.bounded.snapshot_balances_equal_ledger";
 const L_SNAP_ORD: &str = "C08.bounded.snapshot_no_resting_orders";
 const L_NOTIFY: &str = "C08.bounded.one_balance_and_one_trade_notification_per_fill";
@@ -159,6 +160,8 @@ fn expected_trade(resp_id: &barter_execution::order::id::OrderId, time: DateTime
     }
 }
 
+fn monotone_times(accepted: &[T]) -> bool { accepted.windows(2).all(|w| w[0].time_exchange <= w[1].time_exchange) }
+
 /// `subscribed == false`: nobody listens to the account-event broadcast (a polling-only client): the ledger, the trade log and the queries are the same
 async fn case_run_loop(steps: &[Step], fee: Decimal, latency_ms: u64, subscribed: bool, seen: &mut HashSet<&'static str>) {
     let (ex, tx, erx) = exchange(fee, latency_ms);
@@ -195,6 +198,22 @@ async fn case_run_loop(steps: &[Step], fee: Decimal, latency_ms: u64, subscribed
         if tx.send(MockExchangeRequest::fetch_trades(now, rtx, since)).is_err() { return; }
         let Ok(got) = rrx.await else { return; };
         ck.trades("FetchTrades", since, &got, &accepted, false);
+    }
+    // the same queries through the REAL client (MockExecution::fetch_trades builds the request from its own clock and the asked cut-off):
+    // the client's clock reads `now`, later than every fill, so a cut-off different from `now` tells the two request fields apart
+    if monotone_times(&accepted) {
+        use barter_execution::client::{ExecutionClient, mock::MockExecution};
+        let (_etx2, erx2) = broadcast::channel(4);
+        let clock_now = now;
+        let client = MockExecution { mocked_exchange: ExchangeId::Mock, clock: move || clock_now, request_tx: tx.clone(), event_rx: erx2 };
+        for since in queries(&times, &fill_times) {
+            let Ok(got) = client.fetch_trades(since).await else { return; };
+            let want: Vec<&T> = accepted.iter().filter(|t| t.time_exchange >= since).collect();
+            if got.iter().collect::<Vec<_>>() != want {
+                ck.fail(L_CLIENT, format!("MockExecution::fetch_trades(time_since = t0 + {:?}) with the client clock at t0 + {:?} returned {} trade(s)", since.signed_duration_since(t0()), now.signed_duration_since(t0()), got.len()),
+                    format!("the {} accepted fill(s) stamped at or after the asked cut-off", want.len()));
+            }
+        }
     }
     let (rtx, rrx) = oneshot::channel();
     if tx.send(MockExchangeRequest::fetch_account_snapshot(now, rtx)).is_err() { return; }
